@@ -338,6 +338,7 @@ func runSimCheck(id, tier string, seed uint64, p propInfo, scratch string, start
 			// A case that kills its worker (unrecoverable Go fatal, panic on a
 			// goroutine falco started, hang) is attributed through the breadcrumb,
 			// confirmed alone, recorded, and the worker is restarted after it.
+			transient := 0
 			for losses := 0; losses <= 12; {
 				job := Job{Mode: "range", Property: id, Tier: tier, Seed: seed, Worker: w, Workers: workers, Deadline: deadline, MaxCases: envInt("FALCOSIM_MAXCASES", 0), StartCase: start, Recycle: envInt("FALCOSIM_RECYCLE", 20000)}
 				o, crumb, err := runWorker(bi.Bin, job, scratch, stuck, caseBudget+10*time.Minute, nil)
@@ -359,9 +360,17 @@ func runSimCheck(id, tier string, seed uint64, p propInfo, scratch string, start
 				single := Job{Mode: "range", Property: id, Tier: tier, Seed: seed, Worker: c, Workers: 1 << 30}
 				_, _, err2 := runWorker(bi.Bin, single, scratch, 10*stuck, 10*stuck, nil)
 				if err2 == nil {
-					// It completed alone: the loss was infrastructure (memory, machine load).
-					r.infra = fmt.Sprintf("case %d completes alone; the loss of worker %d is treated as infrastructure trouble", c, w)
-					return
+					// It completed alone: the loss was infrastructure (memory, a starved
+					// machine). The worker resumes from that case; a worker that is lost
+					// like this three times ends the run as machinery trouble.
+					transient++
+					if transient >= 3 {
+						r.infra = fmt.Sprintf("case %d completes alone; worker %d was lost %d times on cases that complete alone: infrastructure trouble", c, w, transient)
+						return
+					}
+					fmt.Printf("falcosim: case %d completes alone; worker %d resumes from it (transient loss %d)\n", c, w, transient)
+					start = c
+					continue
 				}
 				kind := "hang"
 				detail := fmt.Sprintf("case %d made no progress for %v when run alone (and killed its worker in the batch)", c, 10*stuck)
